@@ -160,7 +160,18 @@ def run(f, fixture, rep, cfg, tier):
         if info and info["kind"] == "cmp":
             rv = info["stmt"]["rv"]
             guards.append((rv["op"], render(tws.term(rv["a"])), render(tws.term(rv["b"]))))
-    okg = all(g[0] == "Gt" and g[2] == "0_u32" and g[1].endswith("padding_required(self)") for g in guards)
+    # `> 0`, `!= 0`, `== 0` (early return) all skip the write exactly for a zero count
+    okg = all(g[0] in ("Gt", "Ne", "Eq") and g[2] == "0_u32" and g[1].endswith("padding_required(self)") for g in guards)
+    for sb in sorted(ws.reachable()):
+        info = switch_info(ws, sb)
+        if info and info["kind"] == "cmp":
+            rv = info["stmt"]["rv"]
+            zero_edge = info["false"] if rv["op"] in ("Gt", "Ne") else info["true"]
+            wa = [c for c in ws.calls() if c.decl == "std::io::Write::write_all"]
+            from common import reach_from
+            nonzero_edge = info["true"] if rv["op"] in ("Gt", "Ne") else info["false"]
+            # the non-zero side must still reach the padding write
+            okg = okg and any(c.bb in reach_from(ws, nonzero_edge) for c in wa)
     rep.check(okg, "O5", "write_signature|guard", "the padding write is skipped only when padding_required() == 0", "write_signature branches on %s" % guards, ws.span)
 
     # ---- O7 composition ---------------------------------------------------------------------------------
